@@ -201,6 +201,7 @@ def contexts_for(v, rich=True):
     yield mk("setitem", d={}, k="k", v=v)
     yield mk("setitem", d={"a": 1}, k="k", v=v)
     yield mk("setitem", d={"k": 0, "z": 1}, k="k", v=v)
+    yield mk("setitem", d={"a": 1, "k": {"x": 0}, "z": 2}, k="k", v=v)
     if rich:
         yield mk("fromdict", d={"p": {"k": v}})
         yield mk("fromdict", d={"p": {"a": 1, "k": v}, "q": 2})
@@ -446,7 +447,7 @@ def gen_cases(ctx: fw.Ctx):
             if emit(c):
                 yield c
     # 2. strings over the escape alphabet
-    strs = list(strings_stream(ctx, 2 if quick else 3, 300 if quick else 20000))
+    strs = list(strings_stream(ctx, 3 if quick else 4, 1500 if quick else 30000))
     for i, s in enumerate(strs):
         rich = len(s) <= 1 or i % 7 == 0
         for c in (contexts_for(s, rich=True) if rich else (mk("list", xs=[s]), mk("binding", k="k", v=s),
@@ -481,7 +482,7 @@ def gen_cases(ctx: fw.Ctx):
             if emit(c):
                 yield c
     # 6. random values
-    n_random = 2500 if quick else 60000
+    n_random = 12000 if quick else 150000
     max_depth = 2 if quick else 4
     for _ in range(n_random):
         d = ctx.rng.randint(1, max_depth)
